@@ -10,6 +10,7 @@ import (
 	"os"
 	"sort"
 	"strconv"
+	"strings"
 	"sync"
 	"testing"
 	"time"
@@ -144,7 +145,15 @@ func Flush() {
 // Main is a TestMain body: run, flush evidence, exit.
 func Main(m *testing.M) {
 	code := m.Run()
-	Flush()
+	worker := false
+	for _, a := range os.Args {
+		if strings.HasPrefix(a, "-test.fuzzworker") {
+			worker = true
+		}
+	}
+	if !worker { // fuzz workers are re-executions of the binary; only the coordinator reports
+		Flush()
+	}
 	os.Exit(code)
 }
 
